@@ -8,8 +8,9 @@
 
    Expressions
    * comma-decimal: a literal accepted by LitSpec.spec_scan that `fits` (96 bit mantissa, at
-     most 28 places).  spec_scan is the declarative reading of the doc rule; it also admits
-     one leading "-" and an empty integer part (".5"), which the parser reads the same way.
+     most 28 places).  spec_scan is the declarative reading of the doc rule; it also takes
+     one leading "-" and an empty integer part (".5"), which the parser reads the same way
+     (so `-5 USD` is an amount-expr, and in a unary-expr the sign may belong to either rule).
    * commodity ::= one or more characters outside non_commodity_chars (the doc omits the +);
      amount-expr ::= comma-decimal sp* commodity?.
    * value-expr / paren-expr / add-expr / mul-expr / unary-expr as written, with the nesting
@@ -53,7 +54,20 @@
      and with neither mark nor code it does not start with "*" or "!" (they would be read
      as a code / a mark; an unclosed "(" makes the code parser run over the following
      lines).
-   * new-line ::= "\n" | "\r\n" | <EOF>; <EOF> only ends the last line of the file. *)
+   * new-line ::= "\n" | "\r\n" | <EOF>; <EOF> only ends the last line of the file.
+   * what follows a transaction: the end of the file, a line of blanks, or a line that does not
+     start with a blank (the next directive); this is the file structure of DocGrammar.v.
+
+   Documented texts that the parser model REJECTS (each excluded above; concrete witnesses are
+   the `finding_*` Examples at the end of Proofs/DocAcceptTxn.v):
+   * an account made of Unicode white space only, e.g. U+00A0            (wf_account)
+   * a metadata comment that starts like tag words, `; :a: hello`        (tags_like)
+   * the account `*` or `!` without a clear-state                        (no mark at the start)
+   * a payee that starts with "(" without a code: the code parser runs on to the next ")" in
+     a later line and the lines in between are lost                     (no "(" at the start)
+   * a date that is not in the calendar, 2024/02/30                      (chrono_date)
+   * a number that does not fit 96 bits / 28 places                      (fits)
+   * parentheses nested deeper than 100                                  (depth index, F7) *)
 From Coq Require Import List NArith Bool.
 From Okv Require Import Model.Lit Model.LitSpec Model.Comb Model.ParseExpr Model.ParseMeta
   Model.ParsePosting Model.ParseTxn Model.ParseDirective Model.DocGrammar Model.RoundTripSpec.
